@@ -45,6 +45,10 @@ Ltac inv_struct :=
 Ltac inv_go P special :=
   repeat first [ special | (apply (pinv_of_pres_gen P); fp_leaf) | inv_struct ].
 
+(* the same with the predicate given explicitly (when unification cannot find it) *)
+Ltac inv_goQ P Q special :=
+  repeat first [ special | (apply (pinv_of_pres_gen P Q); fp_leaf) | inv_struct ].
+
 (* lifting to [step] and [run] *)
 Section StepLift.
 Variable I : conn -> Prop.
